@@ -16,10 +16,10 @@ ASSUMPTIONS = [
     "timeouts/intervals from a grid of small integers",
 ]
 BOUNDS = {
-    "quick": "open-handshake timeout T in {1,2}: peer handshake at every grid instant in [0, T+1] or never, both roles; close-handshake timeout in {1,2} x server-drop timeout in {1,2}: peer reply and TCP drop at every grid instant, both roles; auto-ping interval in {1,2} x timeout in {1,2} x restart-on-traffic on/off: 3 rounds with 6 peer reactions per round placed on the grid; every leftover timer fired after close",
+    "quick": "open-handshake timeout T in {1,2}: peer handshake at every grid instant in [0, T+1] or never, both roles; close-handshake timeout in {1,2} x server-drop timeout in {1,2}: peer reply and TCP drop at every grid instant, both roles; peer-initiated close x echoCloseCodeReason on/off x (close, drop) timeouts {(1,3),(2,2)}: server TCP drop at every grid instant or never; auto-ping interval in {1,2} x timeout in {1,2} x restart-on-traffic on/off: 3 rounds with 6 peer reactions per round placed on the grid; every leftover timer fired after close",
     "thorough": "T in {1,2,3,5}, 4 auto-ping rounds, intervals/timeouts in {1,2,3}",
 }
-EXPECT_COVERS = ["open:intime", "open:late", "close:reply-intime", "close:reply-late", "drop:intime", "drop:late", "ping:pong", "ping:silent", "ping:data", "ping:latepong"]
+EXPECT_COVERS = ["peerclose:server", "peerclose:client-intime", "peerclose:client-late", "open:intime", "open:late", "close:reply-intime", "close:reply-late", "drop:intime", "drop:late", "ping:pong", "ping:silent", "ping:data", "ping:latepong"]
 BUDGET = {"quick": dict(wall_s=300, max_paths=30000, diff_samples=4), "thorough": dict(wall_s=2400, max_paths=400000)}
 GRID = 0.25
 SLACK = 0.25
@@ -279,10 +279,64 @@ def autoping(sx, server, I, T, restart, rounds):
     return [log, times]
 
 
+def peer_close(sx, server, echo, Tc, Td):
+    """the PEER starts the closing handshake at t0: a server answers and drops TCP at once; a client answers and then waits for the
+    server's TCP drop - not dropped while the server is within serverConnectionDropTimeout, dropped by the deadline when it never drops"""
+    opts = dict(closeHandshakeTimeout=Tc, echoCloseCodeReason=echo)
+    if not server:
+        opts["serverConnectionDropTimeout"] = Td
+    clock, trace, ep, rnd = wslib.open_one(sx, server, opts, fixed_rnd=True)
+    p = ep.p
+    _step(clock, ep, 0.5)
+    t0 = clock.seconds()
+    mask = b"\x01\x02\x03\x04" if server else None
+    info = dict(server=server, echo=echo, Tc=Tc, Td=Td)
+    p.dataReceived(wslib.build_frame(8, b"\x03\xe8bye", mask=mask))
+    frames, rest = wslib.parse_frames(sx, wslib.concat(ep.t.take()))
+    sx.check(len([f for f in frames if f.opcode == 8]) == 1, "peer-close-answered-with-one-close-frame", info=info)
+    if server:
+        sx.check(ep.t.closed is not None, "server-drops-after-answering-the-peers-close", info=info)
+        _lost(ep, trace)
+        oc = trace.of(ep.who, "close")
+        sx.check(len(oc) == 1 and oc[0][2] is True and oc[0][3] == 1000, "clean-close-reported", info=info)
+        _after_close_inert(sx, clock, ep, trace, info)
+        sx.cover("peerclose:server")
+        return ["server"]
+    sx.check(ep.t.closed is None, "client-waits-for-the-servers-tcp-drop", info=info)
+    ng = int((Td + 1) / GRID) + 1
+    k = sx.choice("tcpdrop", ng + 1)
+    tau = None if k == ng else k * GRID
+    info = dict(info, tcp_drop_after=tau)
+    if tau is not None:
+        d = _step(clock, ep, t0 + tau)
+        if tau <= Td - 1:
+            sx.check(d is None, "client-does-not-drop-while-the-server-is-within-its-drop-timeout", info=dict(info, dropped=d))
+        if d is None:
+            _lost(ep, trace)
+            if tau <= Td - 1:
+                oc = trace.of(ep.who, "close")
+                sx.check(len(oc) == 1 and oc[0][2] is True and oc[0][3] == 1000, "timely-server-drop=>clean-close", info=dict(info, oc=repr(oc)[:120]))
+                _after_close_inert(sx, clock, ep, trace, info)
+            sx.cover("peerclose:client-intime")
+            return [tau, "peer-dropped"]
+        return [tau, "grey-zone"]
+    d = _step(clock, ep, t0 + Td + 1)
+    sx.check(d is not None and d <= t0 + Td + SLACK + 1e-9, "server-never-drops:client-drops-by-deadline", info=dict(info, dropped=d))
+    if d is not None:
+        _lost(ep, trace)
+        _after_close_inert(sx, clock, ep, trace, info)
+    sx.cover("peerclose:client-late")
+    return [tau, d]
+
+
 def units(tier):
     U = []
     q = tier == "quick"
     Ts = (1, 2) if q else (1, 2, 3, 5)
+    for echo in (False, True):
+        U.append(("peerclose/S/%s" % ("echo" if echo else "-"), "peer_close", dict(server=True, echo=echo, Tc=1, Td=1)))
+        for Tc, Td in (((1, 3), (2, 2)) if q else ((1, 2), (1, 3), (2, 2), (3, 1), (1, 5))):
+            U.append(("peerclose/C/%s/Tc%d/Td%d" % ("echo" if echo else "-", Tc, Td), "peer_close", dict(server=False, echo=echo, Tc=Tc, Td=Td)))
     for server in (True, False):
         for T in Ts:
             U.append(("open/%s/T%d" % ("S" if server else "C", T), "open_timeout", dict(server=server, T=T)))
